@@ -194,7 +194,7 @@ func vfAwait(done <-chan struct{}, limit time.Duration) (vfWait, string) {
 	}
 	lastSig := ""
 	stable := 0
-	const need = 30 // × 20 ms = 0.6 s, then re-confirmed after a further 1.5 s
+	const need = 30 // × 20 ms = 0.6 s, then re-confirmed after a further 0.6 s
 	for {
 		select {
 		case <-done:
@@ -210,7 +210,7 @@ func vfAwait(done <-chan struct{}, limit time.Duration) (vfWait, string) {
 		}
 		if stable >= need {
 			// re-confirm
-			time.Sleep(1500 * time.Millisecond)
+			time.Sleep(600 * time.Millisecond)
 			select {
 			case <-done:
 				return vfDone, ""
